@@ -1,8 +1,11 @@
 package props
 
 import (
+	"sync/atomic"
+
 	"math/rand/v2"
 	"strings"
+	"verif/sched"
 
 	"github.com/hattya/go.sh/ast"
 	"github.com/hattya/go.sh/parser"
@@ -129,3 +132,27 @@ func genProgram(r *rand.Rand, i int) *gen.Program {
 	}
 	return gen.New(r, o).Program()
 }
+
+// parseScheduled parses src under one of the two extreme coarse schedules.
+// ok=false when the controller could not be used.
+func parseScheduled(src, mode string) ([]ast.Command, error, bool) {
+	cmds, _, err, _ := parseSched(src, sched.Mode{Default: mode == "lexer-first"})
+	return cmds, err, true
+}
+
+func parseSched(src string, m sched.Mode) (cmds []ast.Command, comments []*ast.Comment, err error, res sched.Result) {
+	res = sched.RunParser(m, func() {
+		cmds, comments, err = parser.ParseCommands(nil, "sched", src)
+	})
+	schedForced.Add(int64(res.Forced))
+	schedRuns.Add(1)
+	if res.PopWaitBeforePush {
+		schedPopFirst.Add(1)
+	}
+	if res.PushBeforePopWait {
+		schedPushFirst.Add(1)
+	}
+	return
+}
+
+var schedForced, schedRuns, schedPopFirst, schedPushFirst atomic.Int64
